@@ -554,6 +554,15 @@ def parser_line_loop(prog):
                                                           and src.args[0].value == '\n'):
                         out.append((f, n))
     if len(out) > 1:
+        # a private helper (a generator of lines, a scanning closure) that is inlined into another candidate is judged there
+        inl = {}
+        for f, _ in out:
+            for k_ in getattr(f, 'inlined', ()):
+                inl.setdefault(k_, set()).add(f.key)
+        kept = [(f, n) for f, n in out if not (f.name.startswith('_') and not f.name.startswith('__') and (inl.get(f.key, set()) - {f.key}))]
+        if kept:
+            out = kept
+    if len(out) > 1:
         # a caller that has the parsing function inlined is not a second parser
         keys = {f.key for f, _ in out}
         out = [(f, n) for f, n in out if not (set(getattr(f, 'inlined', ())) & (keys - {f.key}))]
